@@ -319,11 +319,28 @@ class FnView:
             succ = {i: [] for i in range(n)}
             edge = {}
             nxt = n
+            resume = {}
+            if self.f.get('coroutine') and self.blocks and self.blocks[0]['term']['k'] == 'switch':
+                # Coroutine state machine: bb0 dispatches on the saved state.  Re-link every
+                # suspension point (state := N; return) to its resume block and keep only the
+                # "unresumed" edge of the dispatch, so dominance/reachability follow source order.
+                for v, tg in self.blocks[0]['term']['targets']:
+                    if v >= 3:
+                        resume[v] = tg
             for i, b in enumerate(self.blocks):
                 if b['cleanup']:
                     continue
                 t = b['term']
                 k = t['k']
+                if resume and i == 0:
+                    start = [tg for v, tg in t['targets'] if v == 0]
+                    succ[0] = list(start)
+                    continue
+                if resume and k == 'return':
+                    st = [s for s in b['stmts'] if s['k'] == 'setdiscr' and s.get('vi') in resume]
+                    if st:
+                        succ[i].append(resume[st[-1]['vi']])
+                        continue
                 if k == 'switch':
                     vals = [v for v, _ in t['targets']]
                     for v, tg in t['targets']:
@@ -365,7 +382,8 @@ class FnView:
         return succ[bb]
 
     def exits(self):
-        return [i for i in self.live_blocks() if self.blocks[i]['term']['k'] == 'return']
+        succ, _, _ = self.graph()
+        return [i for i in self.live_blocks() if self.blocks[i]['term']['k'] == 'return' and not succ[i]]
 
     def dominators(self):
         """dom[node] = bitset (python int) of nodes dominating node (including itself)."""
@@ -560,6 +578,12 @@ class FnView:
                 segs = cap.split('.')
                 rest = tuple('.' + s for s in segs[1:]) + tuple(p for p in projs[n + 1:] if p != '*')
                 return ('var', segs[0], rest)
+        # locals saved in a coroutine frame keep their debug names
+        if self.upvars:
+            for n in range(len(projs), 0, -1):
+                nm = self.upvars.get((l, tuple(projs[:n])))
+                if nm is not None:
+                    return ('var', nm, tuple(p for p in projs[n:] if p != '*'))
         base = self.local_expr(l, depth + 1)
         rest = tuple(p for p in projs if p != '*')
         if not rest:
